@@ -10,7 +10,6 @@
   move the expected inbound number forward: a lower NewSeqNo is rejected and changes nothing."
 -/
 import Qfx.Lemmas.SessC07
-import Qfx.Model.SessionNxOrig
 open Qfx Qfx.Sess
 
 /-! ## continuity -/
@@ -280,15 +279,15 @@ theorem C07_reset_time_records_clock (s : Sess) (now : Int) (rs : Nat) (hrs : s.
 
 /-! ## EnableNextExpectedMsgSeqNum: tag 789 of the Logons we send, the peer's tag 789
 
-The configuration documents the option as "add tag NextExpectedMsgSeqNum (789) on the sent Logon and use the value of tag 789 on
-a received Logon to synchronise the session".  The model follows session.go after the `fix:` commits 9b6c1a0, eef4b78, fb22495,
-9431a2e, 732dac2 (verif-nx); what the code did before is `Qfx/Model/SessionNxOrig.lean`, its five defects are `#guard`ed below. -/
+No property sentence speaks about this option; the theorems below DESCRIBE what session.go does (l.189–206, l.577–596), they
+claim nothing about what it should do.  The option is tied to the code by the correspondence runs only.  Where the behaviour
+looks unintended it is written up in notes/proofs_b_nx.md (observations 1–5, proposed patch notes/nx_proposed.diff). -/
 
-/-- **what our own Logon announces** (initiator at connect, ResetSeqTime): with the option on, tag 789 is the inbound number
-    we expect once the Logon is out — the store's, or 1 when the Logon carries 141=Y and resets the store on its way out;
-    with the option off there is no tag 789 -/
+/-- **what our own Logon carries** (initiator at connect, ResetSeqTime): with the option on, tag 789 = `NextTargetMsgSeqNum() + 1`
+    as it stands BEFORE the Logon is prepared for sending — one more than the inbound number expected (and, for a Logon carrying
+    141=Y, a number from before the reset: the expected number afterwards is 1); with the option off there is no tag 789 -/
 theorem C07_next_expected_own (s : Sess) (reset : Bool) :
-    (s.cfg.nextExpected = true → (789, toString (sendLogonInReplyTo s reset).store.target) ∈ (logonMsg s reset).f)
+    (s.cfg.nextExpected = true → (789, toString (s.store.target + 1)) ∈ (logonMsg s reset).f)
     ∧ (s.cfg.nextExpected = false → (logonMsg s reset).f.get? 789 = none)
     ∧ (sendLogonInReplyTo s reset).store.target = (if reset then 1 else s.store.target) := by
   have ht : (sendLogonInReplyTo s reset).store.target = (if reset then 1 else s.store.target) := by
@@ -296,17 +295,16 @@ theorem C07_next_expected_own (s : Sess) (reset : Bool) :
     · exact (sendLogon_plain s).2.1
     · exact (sendLogon_reset s).2.1
   refine ⟨fun h => ?_, fun h => ?_, ht⟩
-  · rw [ht]
-    have : logonMsg s reset = logonMsgX s reset (some (if reset then 1 else s.store.target)) := by
+  · have : logonMsg s reset = logonMsgX s reset (some (s.store.target + 1)) := by
       unfold logonMsg nxOwn; rw [h]; rfl
     rw [this]; exact logonMsgX_mem789 s reset _
-  · have : logonMsg s reset = logonMsgX s reset none := by unfold logonMsg; rw [nxOwn_off s reset h]
+  · have : logonMsg s reset = logonMsgX s reset none := by unfold logonMsg; rw [nxOwn_off s h]
     rw [this]; exact logonMsgX_no789 s reset
 
-/-- **what the acceptor's reply announces**: with the option on and a readable tag 789 in the Logon being answered, tag 789 =
-    `NextTargetMsgSeqNum + 1` — the number expected once that Logon is counted, which is the expected number after the Logon
-    has been accepted (`C07_next_expected_accepted`); without the option, or when the peer's Logon has no readable 789, the
-    reply has no tag 789 -/
+/-- **what the acceptor's reply carries**: with the option on and a readable tag 789 in the Logon being answered, tag 789 =
+    `NextTargetMsgSeqNum() + 1` (the Logon being answered is not counted yet: this is the expected number after the Logon has
+    been accepted, `C07_next_expected_accepted`); without the option, or when the peer's Logon has no readable 789, the reply
+    has no tag 789 -/
 theorem C07_next_expected_reply (s : Sess) (reset : Bool) (m : InMsg) :
     (s.cfg.nextExpected = true → (peerNext m).isSome = true → (789, toString (s.store.target + 1)) ∈ (logonMsgRe s reset m).f)
     ∧ ((s.cfg.nextExpected = false ∨ peerNext m = none) → (logonMsgRe s reset m).f.get? 789 = none) := by
@@ -321,38 +319,34 @@ theorem C07_next_expected_reply (s : Sess) (reset : Bool) (m : InMsg) :
       · rw [h]; simp
     rw [this]; exact logonMsgX_no789 s reset
 
-/-- **higher: a Logon whose tag 789 is above our next outbound number is refused** ("we can't resend what we never sent").
-    The acceptor whenever it is about to answer (a Logon carrying tag 141 included — after that reset our number is 1), the
-    initiator when the Logon has no tag 141: `handleLogon` ends with RejectLogon before the reply, before the logon
-    notification and before the Logon's number is counted; nothing is stored or sent, `sentReset` stays (an acceptor has
-    adopted the HeartBtInt by then). -/
-theorem C07_next_expected_ahead_refused (s : Sess) (m : InMsg) (n : Int) (hnx : s.cfg.nextExpected = true) (hp : peerNext m = some n)
-    (hgt : n > s.store.sender)
-    (hrole : if s.cfg.initiator then m.f.has 141 = false else (logonResetFlag m && s.sentReset && s.st.loggedOn) = false) :
-    logonTail s m = (logonRefused s m, some (.rej .rejectLogon))
+/-- **higher, acceptor: a Logon whose tag 789 is above our next outbound number is refused** (`sendLogonInReplyTo`: "we can't
+    resend what we never sent"), whenever the acceptor is about to answer — a Logon carrying tag 141 included (after that reset
+    our number is 1): `handleLogon` ends with RejectLogon before the reply, before the logon notification and before the
+    Logon's number is counted; nothing is stored or sent, `sentReset` stays (the HeartBtInt has been adopted by then).
+    An initiator never refuses (`logonRefuses` is false for it by definition): it treats a higher 789 like a lower one. -/
+theorem C07_next_expected_ahead_refused (s : Sess) (m : InMsg) (n ns : Int) (hi : s.cfg.initiator = false)
+    (hnx : s.cfg.nextExpected = true) (hp : peerNext m = some n) (hgt : n > s.store.sender)
+    (hrole : (logonResetFlag m && s.sentReset && s.st.loggedOn) = false) :
+    logonTail s m ns = (logonRefused s m, some (.rej .rejectLogon))
     ∧ (logonRefused s m).store = s.store ∧ (logonRefused s m).log = s.log ∧ (logonRefused s m).toSend = s.toSend
     ∧ (logonRefused s m).sentReset = s.sentReset := by
   have hr : logonRefuses s m (logonResetFlag m) = true := by
     unfold logonRefuses nxRefuses nxAbove
-    rw [hnx, hp]
-    cases hi : s.cfg.initiator
-    · rw [hi] at hrole; simp only [Bool.false_eq_true, if_false] at hrole
-      simp [hrole, hgt]
-    · rw [hi] at hrole; simp only [if_true] at hrole
-      simp [hrole, hgt]
+    rw [hnx, hp, hi, hrole]
+    simp [hgt]
   refine ⟨by unfold logonTail; rw [if_pos hr], ?_⟩
   unfold logonRefused
   split
   · split <;> exact ⟨rfl, rfl, rfl, rfl⟩
   · exact ⟨rfl, rfl, rfl, rfl⟩
 
-/-- … and only then: a refusal means the option is on and the Logon's 789 is above our next outbound number -/
+/-- … and only then: a refusal means an acceptor with the option on and a Logon whose 789 is above our next outbound number -/
 theorem C07_next_expected_refused_only_ahead (s : Sess) (m : InMsg) (flag : Bool) (h : logonRefuses s m flag = true) :
-    s.cfg.nextExpected = true ∧ ∃ n, peerNext m = some n ∧ n > s.store.sender := by
+    s.cfg.initiator = false ∧ s.cfg.nextExpected = true ∧ ∃ n, peerNext m = some n ∧ n > s.store.sender := by
   unfold logonRefuses nxRefuses nxAbove at h
   simp only [Bool.and_eq_true] at h
-  obtain ⟨_, h1, h2⟩ := h
-  refine ⟨h1, ?_⟩
+  obtain ⟨⟨h0, _⟩, h1, h2⟩ := h
+  refine ⟨by simpa using h0, h1, ?_⟩
   cases hp : peerNext m with
   | none => rw [hp] at h2; cases h2
   | some n => rw [hp] at h2; exact ⟨n, rfl, by simpa using h2⟩
@@ -365,38 +359,61 @@ theorem C07_next_expected_refusal_logs_out (s s' : Sess) (m : InMsg) (hk : kindO
 
 /-- **equal, absent, unreadable, option off, or a Logon carrying tag 141: nothing happens** -/
 theorem C07_next_expected_equal (s : Sess) (m : InMsg) (ns : Int)
-    (h : s.cfg.nextExpected = false ∨ m.f.has 141 = true ∨ peerNext m = none ∨ peerNext m = some ns) : nxEval s m ns = s :=
+    (h : s.cfg.nextExpected = false ∨ m.f.has 141 = true ∨ peerNext m = none ∨ peerNext m = some ns) : nxEval s m ns = (s, none) :=
   nxEval_quiet s m ns h
 
-/-- **lower: the implied gap fill.**  Option on, no tag 141, the peer's 789 = `n` differs from our number `ns` (it is below:
-    above has been refused): exactly one SequenceReset-GapFill with PossDupFlag is handed to `EnqueueBytesAndSend`, numbered
-    `n`, NewSeqNo = the number we use next (the acceptor's reply has taken `ns`, an initiator has sent nothing) — with and
-    without message persistence, nothing is replayed.  The store is not touched: nothing stored is lost, both counters
-    stay.  With a connection it is the last thing written (behind whatever was queued, when logged on). -/
-theorem C07_next_expected_lower (s : Sess) (m : InMsg) (ns n : Int) (hnx : s.cfg.nextExpected = true) (h141 : m.f.has 141 = false)
-    (hp : peerNext m = some n) (hne : n ≠ ns) :
-    let gf := gapFillRe s m n s.store.sender
-    nxEval s m ns = enqueueAndSend s gf
-    ∧ gf.kind = "4" ∧ gf.seq = n ∧ gf.f = [(36, toString s.store.sender), (43, "Y"), (122, "+"), (123, "Y")]
-    ∧ (nxEval s m ns).store = s.store
-    ∧ (s.out = true → (nxEval s m ns).toSend = []
-        ∧ (nxEval s m ns).log = .wire gf :: ((if s.st.loggedOn then s.toSend else []).map Obs.wire).reverse ++ s.log) := by
+/-- **different (lower — or, for an initiator, higher), with message persistence: the implied gap fill.**  Option on, no tag
+    141, the peer's 789 = `n` differs from `ns`, our next outbound number when the Logon arrived (before a reset the Logon
+    caused, before our reply): exactly one SequenceReset-GapFill with PossDupFlag is handed to `EnqueueBytesAndSend`, numbered
+    `n`, NewSeqNo = `ns + 1` (the `+ 1` is the acceptor's reply; an initiator sends none).  Nothing is replayed.  The store is
+    not touched: nothing stored is lost, both counters stay.  With a connection it is the last thing written (behind whatever
+    was queued, when logged on). -/
+theorem C07_next_expected_differs (s : Sess) (m : InMsg) (ns n : Int) (hnx : s.cfg.nextExpected = true) (h141 : m.f.has 141 = false)
+    (hp : peerNext m = some n) (hne : n ≠ ns) (hper : s.cfg.persist = true) :
+    let gf := gapFillRe s m n (ns + 1)
+    nxEval s m ns = (enqueueAndSend s gf, none)
+    ∧ gf.kind = "4" ∧ gf.seq = n ∧ gf.f = [(36, toString (ns + 1)), (43, "Y"), (122, "+"), (123, "Y")]
+    ∧ (nxEval s m ns).1.store = s.store
+    ∧ (s.out = true → (nxEval s m ns).1.toSend = []
+        ∧ (nxEval s m ns).1.log = .wire gf :: ((if s.st.loggedOn then s.toSend else []).map Obs.wire).reverse ++ s.log) := by
   intro gf
-  have e := nxEval_fill s m ns n hnx h141 hp hne
+  have e := nxEval_fill s m ns n hnx h141 hp hne hper
   refine ⟨e, rfl, rfl, rfl, (nxEval_frame s m ns).1, fun ho => ?_⟩
   rw [e]
   exact ⟨(enqueueAndSend_log s gf ho).2, (enqueueAndSend_log s gf ho).1⟩
 
-/-- **a Logon accepted, end to end** (either role; no reset configured or asked for; the Logon carries the expected number
-    and its 789 is not ahead of us): the session is notified, the expected inbound number advances by one, the outbound
-    number by one for the acceptor's reply and not at all for an initiator, nothing stored is lost (the reply is the only
-    new entry), the epoch stays.  The acceptor's reply is written and — option on, readable 789 in the peer's Logon —
-    announces in tag 789 exactly the inbound number expected afterwards.  When the peer's 789 is below our next outbound
-    number the gap fill from the peer's 789 is written, and its NewSeqNo is exactly the outbound number we use next. -/
+/-- **different, without message persistence: the error `targetTooHigh{peer's 789, our outbound number}`.**  Nothing is sent
+    and nothing changes at this point; `logonFinish` returns the error AFTER the reply, the peer timer and the logon
+    notification and BEFORE the Logon's own number is checked and counted. -/
+theorem C07_next_expected_differs_nopersist (s : Sess) (m : InMsg) (ns n : Int) (hnx : s.cfg.nextExpected = true)
+    (h141 : m.f.has 141 = false) (hp : peerNext m = some n) (hne : n ≠ ns) (hper : s.cfg.persist = false) :
+    nxEval s m ns = (s, some (.tooHigh n ns))
+    ∧ logonFinish s m ns = (((s.setSentReset false).emit (.armPeer (1200 * s.hb))).emit .onLogon, some (.rej (.tooHigh n ns))) := by
+  refine ⟨nxEval_nopersist s m ns n hnx h141 hp hne hper, ?_⟩
+  unfold logonFinish
+  rw [nxEval_nopersist (((s.setSentReset false).emit (.armPeer (1200 * s.hb))).emit .onLogon) m ns n hnx h141 hp hne hper]
+
+/-- … which the logon state treats like a gap in the INBOUND numbers (`doTargetTooHigh`): whatever pair `handleLogon` reports,
+    a ResendRequest from the second number to the first − 1 is queued and the state becomes `resend` with that range.  For
+    the pair above that is a request from OUR next outbound number to the peer's 789 − 1. -/
+theorem C07_next_expected_nopersist_logon_state (s s' : Sess) (m : InMsg) (n t : Int) (hk : kindOf m = "A")
+    (h : handleLogon s m = (s', some (.rej (.tooHigh n t)))) :
+    logonFixMsgIn s m = ((sendResendRequest s' t (n - 1)).1, .resend [] (sendResendRequest s' t (n - 1)).2.1 (sendResendRequest s' t (n - 1)).2.2) := by
+  unfold logonFixMsgIn
+  rw [if_neg (by simp [hk]), h]
+
+/-- **a Logon accepted, end to end** (either role; no reset configured or asked for; the Logon carries the expected number;
+    an acceptor does not refuse it; message persistence on): the session is notified, the expected inbound number advances by
+    one, the outbound number by one for the acceptor's reply and not at all for an initiator, nothing stored is lost (the reply
+    is the only new entry), the epoch stays.  The acceptor's reply is written and — option on, readable 789 in the peer's
+    Logon — carries in tag 789 exactly the inbound number expected afterwards.  When the peer's 789 differs from our next
+    outbound number as it was on arrival, the gap fill from the peer's 789 is written with NewSeqNo = that number + 1: the
+    number an acceptor uses next, one MORE than the number an initiator uses next. -/
 theorem C07_next_expected_accepted (s : Sess) (m : InMsg)
     (h5 : (s.cfg.bs == 5 && !m.f.has 1137) = false) (hg : GateMsg s.cfg m) (ht : TimeGate s m)
     (hv : callbackVerdict m = none) (hro : (if s.cfg.initiator then false else s.cfg.resetOnLogon) = false)
-    (hf : logonResetFlag m = false) (h34 : getInt m 34 = .val s.store.target) (hnr : nxRefuses s m = false) :
+    (hf : logonResetFlag m = false) (h34 : getInt m 34 = .val s.store.target)
+    (hnr : s.cfg.initiator = true ∨ nxRefuses s m = false) (hper : s.cfg.persist = true) :
     let r := handleLogon s m
     r.2 = none ∧ r.1.store.target = s.store.target + 1
     ∧ r.1.store.sender = (if s.cfg.initiator then s.store.sender else s.store.sender + 1)
@@ -405,15 +422,18 @@ theorem C07_next_expected_accepted (s : Sess) (m : InMsg)
         let reply : OutMsg := { stamp base ((logonMsgRe base false m).inReplyTo m) with seq := s.store.sender }
         (s.out = true → Obs.wire reply ∈ r.1.log)
         ∧ (s.cfg.nextExpected = true → (peerNext m).isSome = true → (789, toString r.1.store.target) ∈ reply.f))
-    ∧ (s.cfg.nextExpected = true → m.f.has 141 = false → ∀ n, peerNext m = some n → n < s.store.sender → s.out = true →
+    ∧ (s.cfg.nextExpected = true → m.f.has 141 = false → ∀ n, peerNext m = some n → n ≠ s.store.sender → s.out = true →
         ∃ gf : OutMsg, Obs.wire gf ∈ r.1.log ∧ gf.kind = "4" ∧ gf.seq = n
-          ∧ gf.f = [(36, toString r.1.store.sender), (43, "Y"), (122, "+"), (123, "Y")]) := by
+          ∧ gf.f = [(36, toString (s.store.sender + 1)), (43, "Y"), (122, "+"), (123, "Y")]) := by
   intro r
   obtain ⟨s2, c1, c2, c3, c4, c5, c6, _, _, hl⟩ :=
     handleLogon_passes s m h5 hg ht hv hro (Or.inl hf) s.store.target h34 (Int.le_refl _)
   have hnr2 : logonRefuses s2 m (logonResetFlag m) = false := by
-    have : nxRefuses s2 m = nxRefuses s m := by unfold nxRefuses; rw [c1, c3]
-    unfold logonRefuses; rw [this, hnr, Bool.and_false]
+    unfold logonRefuses
+    rcases hnr with hi | hnr
+    · rw [c1, hi]; rfl
+    · have : nxRefuses s2 m = nxRefuses s m := by unfold nxRefuses; rw [c1, c3]
+      rw [this, hnr, Bool.and_false]
   -- the reply step
   have hx : ∃ x : Sess, logonReply s2 m false = x ∧ x.store.target = s.store.target
       ∧ x.store.sender = (if s.cfg.initiator then s.store.sender else s.store.sender + 1)
@@ -439,14 +459,18 @@ theorem C07_next_expected_accepted (s : Sess) (m : InMsg)
   -- notification, the peer's 789, the number consumed
   obtain ⟨y, hy⟩ : ∃ y, y = ((x.setSentReset false).emit (.armPeer (1200 * x.hb))).emit .onLogon := ⟨_, rfl⟩
   have ys : y.store = x.store := by rw [hy]; rfl
-  obtain ⟨z, hz⟩ : ∃ z, z = nxEval y m s2.store.sender := ⟨_, rfl⟩
-  obtain ⟨f1, f2, _, _, f5, _⟩ := nxEval_frame y m s2.store.sender
+  have ycfg : y.cfg = s.cfg := by rw [hy]; exact x5
+  obtain ⟨z, hz⟩ : ∃ z, z = (nxEval y m s.store.sender).1 := ⟨_, rfl⟩
+  obtain ⟨f1, _, _, _, _, _⟩ := nxEval_frame y m s.store.sender
   have zs : z.store = x.store := by rw [hz, f1, ys]
-  obtain ⟨pre, hpre⟩ := nxEval_log y m s2.store.sender
-  have hfin : logonFinish x m s2.store.sender = (incrTarget z, none) := by
+  obtain ⟨pre, hpre⟩ := nxEval_log y m s.store.sender
+  have hnone : (nxEval y m s.store.sender).2 = none := nxEval_noErr y m _ (Or.inr (by rw [ycfg]; exact hper))
+  have hfin : logonFinish x m s.store.sender = (incrTarget z, none) := by
     unfold logonFinish
+    rw [← hy]
+    have e : nxEval y m s.store.sender = (z, none) := by rw [hz, ← hnone]
+    rw [e]
     simp only []
-    rw [← hy, ← hz]
     have : checkTooHigh z m = none := by
       unfold checkTooHigh; rw [h34]; simp only []
       rw [if_neg]; rw [zs, x1]; omega
@@ -457,7 +481,7 @@ theorem C07_next_expected_accepted (s : Sess) (m : InMsg)
     rw [ex, hfin]
   have hzlog : z.log = pre ++ (Obs.onLogon :: Obs.armPeer (1200 * x.hb) :: x.log) := by rw [hz, hpre, hy]; rfl
   rw [hr]
-  refine ⟨rfl, ?_, ?_, ?_, ?_, ?_, fun hi => ?_, fun hnx h141 n hp hlt ho => ?_⟩
+  refine ⟨rfl, ?_, ?_, ?_, ?_, ?_, fun hi => ?_, fun hnx h141 n hp hne ho => ?_⟩
   · show z.store.target + 1 = _; rw [zs, x1]
   · show z.store.sender = _; rw [zs, x2]
   · show z.store.epoch = _; rw [zs, x3]
@@ -475,13 +499,12 @@ theorem C07_next_expected_accepted (s : Sess) (m : InMsg)
     · show (789, toString (z.store.target + 1)) ∈ (logonMsgRe base false m).f
       rw [zs, x1, ← hb2]
       exact (C07_next_expected_reply base false m).1 (by rw [hb1]; exact hnx) hps
-  · have hne : n ≠ s2.store.sender := by rw [c3]; omega
-    obtain ⟨_, k2, k3, k4, _, k6⟩ := C07_next_expected_lower y m s2.store.sender n (by rw [hy]; exact x5.symm ▸ hnx) h141 hp hne
+  · obtain ⟨_, k2, k3, k4, _, k6⟩ := C07_next_expected_differs y m s.store.sender n (by rw [ycfg]; exact hnx) h141 hp hne
+      (by rw [ycfg]; exact hper)
     have hyo : y.out = true := by rw [hy]; show x.out = true; rw [x6]; exact ho
-    refine ⟨gapFillRe y m n y.store.sender, ?_, k2, k3, ?_⟩
-    · show Obs.wire _ ∈ Obs.incT :: z.log
-      rw [hz, (k6 hyo).2]; simp
-    · rw [k4]; show _ = [(36, toString z.store.sender), _, _, _]; rw [zs, ys]
+    refine ⟨gapFillRe y m n (s.store.sender + 1), ?_, k2, k3, k4⟩
+    show Obs.wire _ ∈ Obs.incT :: z.log
+    rw [hz, (k6 hyo).2]; simp
 
 /-! ## ResetOnLogout / ResetOnDisconnect -/
 
@@ -622,7 +645,7 @@ def c07Up (cfg : Cfg) (logon : InMsg := c07Logon 7 []) : Sess :=
 #guard (let logon40 : InMsg := { f := [(8, "FIX.4.0"), (35, "A"), (49, "TGT"), (56, "SND"), (34, "7"), (52, "@0"), (98, "0"), (108, "30")] }
         let r := step (c07Up { c07Rst with bs := 0 } logon40) (.resetTime (86400 + 43200))
         (c07Summary r.1, c07Wires r.2.1)) == ((2, 1, [1], 1, "InSession"), [("A", 1, [(108, "30"), (141, "Y")])])
-/-! ### EnableNextExpectedMsgSeqNum (tag 789) -/
+/-! ### EnableNextExpectedMsgSeqNum (tag 789): what the code does (no property speaks about it; notes/proofs_b_nx.md) -/
 def c07NxA : Cfg := { nextExpected := true }
 def c07NxI : Cfg := { nextExpected := true, initiator := true }
 /-- connected, the peer's Logon not yet received; counters (5, 7) — an initiator has sent its Logon: (6, 7) -/
@@ -633,64 +656,46 @@ def c07Conn (cfg : Cfg) : Sess := runEvents (initSess cfg 5 7) [.connect]
         && (callbackVerdict (c07Logon 7 [(789, "3")])).isNone && !logonResetFlag (c07Logon 7 [(789, "3")])
         && !nxRefuses (c07Conn c07NxA) (c07Logon 7 [(789, "3")]) && !nxRefuses (c07Conn c07NxA) (c07Logon 7 [(789, "5")])
         && nxRefuses (c07Conn c07NxA) (c07Logon 7 [(789, "6")])
--- equal: our next outbound number is 5, the peer expects 5: the reply (number 5) announces 789 = 8, nothing else is sent
+-- acceptor, equal: our next outbound number is 5, the peer expects 5: the reply (number 5) carries 789 = 8, nothing else is sent
 #guard (let r := step (c07Conn c07NxA) (.incomingMsg (some (c07Logon 7 [(789, "5")]))); (c07Summary r.1, c07Wires r.2.1))
        == ((6, 8, [5], 0, "InSession"), [("A", 5, [(108, "30"), (789, "8")])])
--- lower: the peer expects 3: reply, then ONE gap fill 3 → 6 (6 = the number we use next); counters as before, nothing lost
+-- acceptor, lower: the peer expects 3: reply, then ONE gap fill 3 → 6; counters as before, nothing lost
 #guard (let r := step (c07Conn c07NxA) (.incomingMsg (some (c07Logon 7 [(789, "3")]))); (c07Summary r.1, c07Wires r.2.1))
        == ((6, 8, [5], 0, "InSession"), [("A", 5, [(108, "30"), (789, "8")]), ("4", 3, [(36, "6"), (43, "Y"), (122, "+"), (123, "Y")])])
--- … the same without message persistence (after `fix:` eef4b78)
-#guard (let r := step (c07Conn { c07NxA with persist := false }) (.incomingMsg (some (c07Logon 7 [(789, "3")]))); (c07Summary r.1, c07Wires r.2.1))
-       == ((6, 8, [], 0, "InSession"), [("A", 5, [(108, "30"), (789, "8")]), ("4", 3, [(36, "6"), (43, "Y"), (122, "+"), (123, "Y")])])
--- higher: the peer expects 6, we have not sent 5 yet: refused — Logout, no logon notification, the Logon's number counted
+-- acceptor, higher: the peer expects 6, we have not sent 5 yet: refused — Logout, no logon notification, the Logon's number counted
 #guard (let r := step (c07Conn c07NxA) (.incomingMsg (some (c07Logon 7 [(789, "6")]))); (c07Summary r.1, c07Wires r.2.1, r.2.1.filter (· == .onLogon)))
        == ((6, 8, [5], 0, "Latent"), [("5", 5, [])], [])
 -- no 789 in the peer's Logon, or the option off: the reply has none either, nothing else happens
 #guard (let r := step (c07Conn c07NxA) (.incomingMsg (some (c07Logon 7 []))); c07Wires r.2.1) == [("A", 5, [(108, "30")])]
 #guard (let r := step (c07Conn {}) (.incomingMsg (some (c07Logon 7 [(789, "3")]))); c07Wires r.2.1) == [("A", 5, [(108, "30")])]
--- the initiator's Logon announces what it expects: 789 = 7 (after `fix:` 9b6c1a0) …
-#guard (let r := step (initSess c07NxI 5 7) .connect; (c07Summary r.1, c07Wires r.2.1)) == ((6, 7, [5], 0, "Logon"), [("A", 5, [(108, "30"), (789, "7")])])
--- … the answer says 789 = 3: gap fill 3 → 6, and 6 IS the initiator's next number (after `fix:` fb22495); 789 = 9: refused (after `fix:` 732dac2)
-#guard (let r := step (c07Conn c07NxI) (.incomingMsg (some (c07Logon 7 [(789, "3")]))); (c07Summary r.1, c07Wires r.2.1))
-       == ((6, 8, [5], 0, "InSession"), [("4", 3, [(36, "6"), (43, "Y"), (122, "+"), (123, "Y")])])
-#guard (let r := step (c07Conn c07NxI) (.incomingMsg (some (c07Logon 7 [(789, "9")]))); (c07Summary r.1, c07Wires r.2.1, r.2.1.filter (· == .onLogon)))
-       == ((7, 8, [6, 5], 0, "Latent"), [("5", 6, [])], [])
--- ResetOnLogon on the acceptor: the peer starts from 1 and says so; after the reset we are at 1 too: in sync, no gap fill (after `fix:` 9431a2e)
-#guard (let r := step (c07Conn { c07NxA with resetOnLogon := true }) (.incomingMsg (some (c07Logon 1 [(789, "1")]))); (c07Summary r.1, c07Wires r.2.1))
-       == ((2, 2, [1], 1, "InSession"), [("A", 1, [(108, "30"), (789, "2")])])
--- a reset Logon (141=Y): its 789 is not evaluated for a gap fill, but 789 = 2 is ahead of the reset acceptor (next number 1): refused
+-- a reset Logon (141=Y): its 789 is not evaluated for a gap fill, but 789 = 2 is above the reset acceptor's number 1: refused
 #guard (let r := step (c07Conn c07NxA) (.incomingMsg (some (c07Logon 1 [(141, "Y"), (789, "1")]))); (c07Summary r.1, c07Wires r.2.1))
        == ((2, 2, [1], 2, "InSession"), [("A", 1, [(108, "30"), (141, "Y"), (789, "2")])])
 #guard (let r := step (c07Conn c07NxA) (.incomingMsg (some (c07Logon 1 [(141, "Y"), (789, "2")]))); (c07Summary r.1, c07Wires r.2.1))
        == ((2, 2, [1], 1, "Latent"), [("5", 1, [])])
--- ResetSeqTime with the option: the reset Logon announces 789 = 1, the number expected after the reset (after `fix:` 9b6c1a0)
+-- OBSERVATIONS (notes/proofs_b_nx.md 1–5; none of them breaks a property sentence as written, see there):
+-- (1) the initiator's Logon carries 789 = 8 while it expects 7; the ResetSeqTime Logon carries the number from before its own reset
+#guard (let r := step (initSess c07NxI 5 7) .connect; (c07Summary r.1, c07Wires r.2.1)) == ((6, 7, [5], 0, "Logon"), [("A", 5, [(108, "30"), (789, "8")])])
 #guard (let r := step (c07Up { c07Rst with nextExpected := true }) (.resetTime (86400 + 43200)); (c07Summary r.1, c07Wires r.2.1))
-       == ((2, 1, [1], 1, "InSession"), [("A", 1, [(108, "30"), (141, "Y"), (789, "1")])])
--- a Logon that opens a gap (number 9, expected 7) with 789 = 3: reply (789 = 8: the Logon being answered counted), gap fill, and the
--- ResendRequest for [7, ∞) queued behind them — the expected number stays 7 (observation: the reply announces 8 while 7 is requested)
+       == ((2, 1, [1], 1, "InSession"), [("A", 1, [(108, "30"), (141, "Y"), (789, "9")])])
+-- (2) without persistence a lower 789 is reported as `targetTooHigh{3, 5}`: reply and logon notification given, then a ResendRequest
+--     from OUR outbound number 5 queued, state Resend, and the Logon's own number NOT counted (expected stays 7)
+#guard (let r := step (c07Conn { c07NxA with persist := false }) (.incomingMsg (some (c07Logon 7 [(789, "3")])))
+        (c07Summary r.1, c07Wires r.2.1, r.1.toSend.map (fun o => (o.kind, o.f)), r.2.1.filter (· == .onLogon)))
+       == ((7, 7, [], 0, "Resend"), [("A", 5, [(108, "30"), (789, "8")])], [("2", [(7, "5"), (16, "0")])], [.onLogon])
+-- (3) an initiator's gap fill carries NewSeqNo 7 while its next message is 6
+#guard (let r := step (c07Conn c07NxI) (.incomingMsg (some (c07Logon 7 [(789, "3")]))); (c07Summary r.1, c07Wires r.2.1))
+       == ((6, 8, [5], 0, "InSession"), [("4", 3, [(36, "7"), (43, "Y"), (122, "+"), (123, "Y")])])
+-- (4) ResetOnLogon: the peer's 789 = 1 is compared with the number from before the reset (5): a gap fill 1 → 6 behind reply number 1
+#guard (let r := step (c07Conn { c07NxA with resetOnLogon := true }) (.incomingMsg (some (c07Logon 1 [(789, "1")]))); (c07Summary r.1, c07Wires r.2.1))
+       == ((2, 2, [1], 1, "InSession"), [("A", 1, [(108, "30"), (789, "2")]), ("4", 1, [(36, "6"), (43, "Y"), (122, "+"), (123, "Y")])])
+-- (5) an initiator accepts a Logon whose 789 = 9 is above its next number 6 and sends a gap fill numbered 9 with NewSeqNo 7
+#guard (let r := step (c07Conn c07NxI) (.incomingMsg (some (c07Logon 7 [(789, "9")]))); (c07Summary r.1, c07Wires r.2.1, r.2.1.filter (· == .onLogon)))
+       == ((6, 8, [5], 0, "InSession"), [("4", 9, [(36, "7"), (43, "Y"), (122, "+"), (123, "Y")])], [.onLogon])
+-- a Logon that opens a gap (number 9, expected 7) with 789 = 3, persistence on: reply (789 = 8), gap fill, and the ResendRequest for
+-- [7, ∞) queued behind them — the expected number stays 7
 #guard (let r := step (c07Conn c07NxA) (.incomingMsg (some (c07Logon 9 [(789, "3")]))); (c07Summary r.1, c07Wires r.2.1, r.1.toSend.map (fun o => (o.kind, o.f))))
        == ((7, 7, [6, 5], 0, "Resend"), [("A", 5, [(108, "30"), (789, "8")]), ("4", 3, [(36, "6"), (43, "Y"), (122, "+"), (123, "Y")])], [("2", [(7, "7"), (16, "0")])])
-
-/-! the code BEFORE the five `fix:` commits (`Qfx/Model/SessionNxOrig.lean`; that model agreed with the unfixed tree on every operation) -/
--- (1) the initiator announced one more than it expects (789 = 8 with expected 7): a quickfix acceptor with the option refuses that Logon
-#guard c07Wires (sendLogonOrig ((initSess c07NxI 5 7).openConn) false).log == [("A", 5, [(108, "30"), (789, "8")])]
--- … and the ResetSeqTime Logon announced the number from before its own reset (789 = 9, expected afterwards 1)
-#guard c07Wires (dropAndSend (c07Up { c07Rst with nextExpected := true }) (logonMsgOrig (c07Up { c07Rst with nextExpected := true }) true)).log
-       == [("A", 1, [(108, "30"), (141, "Y"), (789, "9")])]
--- (2) without persistence a lower 789 became `targetTooHigh{3, 5}`: the logon state queued a ResendRequest from OUR outbound number 5,
---     entered Resend, and the Logon's own number was not counted (expected stays 7 although OnLogon was given and the reply sent)
-#guard (let r := logonFixMsgInNxOrig (c07Conn { c07NxA with persist := false }) (c07Logon 7 [(789, "3")])
-        (c07Summary r.1, r.2.name, c07Wires r.1.log, r.1.toSend.map (fun o => (o.kind, o.f)), r.1.log.filter (· == .onLogon)))
-       == ((7, 7, [], 0, "Logon"), "Resend", [("A", 5, [(108, "30"), (789, "8")])], [("2", [(7, "5"), (16, "0")])], [.onLogon])
--- (3) an initiator's gap fill announced 7 while its next message is 6 (the peer then sees 6 as too low and logs out)
-#guard (let r := handleLogonNxOrig (c07Conn c07NxI) (c07Logon 7 [(789, "3")]); (c07Summary r.1, c07Wires r.1.log))
-       == ((6, 8, [5], 0, "Logon"), [("4", 3, [(36, "7"), (43, "Y"), (122, "+"), (123, "Y")])])
--- (4) ResetOnLogon: the peer's 789 = 1 was compared with the number from before the reset (5): a gap fill 1 → 6 behind reply number 1
-#guard (let r := handleLogonNxOrig (c07Conn { c07NxA with resetOnLogon := true }) (c07Logon 1 [(789, "1")]); (c07Summary r.1, c07Wires r.1.log))
-       == ((2, 2, [1], 1, "Logon"), [("4", 1, [(36, "6"), (43, "Y"), (122, "+"), (123, "Y")]), ("A", 1, [(108, "30"), (789, "2")])])
--- (5) an initiator accepted a Logon whose 789 = 9 is ahead of it (next number 6) and sent a gap fill numbered 9 with NewSeqNo 7
-#guard (let r := handleLogonNxOrig (c07Conn c07NxI) (c07Logon 7 [(789, "9")]); (c07Summary r.1, c07Wires r.1.log, r.1.log.filter (· == .onLogon)))
-       == ((6, 8, [5], 0, "Logon"), [("4", 9, [(36, "7"), (43, "Y"), (122, "+"), (123, "Y")])], [.onLogon])
 -- ResetOnLogout / ResetOnDisconnect: (1, 1) right after
 #guard (let s := runEvents (initSess { resetOnLogout := true } 5 7) [.connect, .incomingMsg (some (c07Logon 7 []))]
         c07Summary (step s (.incomingMsg (some (c07Msg "5" 8 [])))).1) == (1, 1, [], 1, "Latent")
@@ -723,19 +728,14 @@ Clause checklist (properties.jsonl C07 → theorems)
         the answer: initiator — C07_logon_reset_echo (no second reset); acceptor — C07_logon_reset_echo_acceptor,
         C07_own_reset_answer_not_answered (after `fix:` cbdc133; before it — C07_orig_echo_of_own_reset_resets_again — the engine
         answered the peer's answer with another Logon 1 / 141=Y and reset again: C07.echo_of_own_reset_resets_again{role=acceptor})
-* EnableNextExpectedMsgSeqNum (tag 789; the property text does not mention it — the clauses are the reading of the configuration
-  documentation "add tag 789 on the sent Logon and use the value of tag 789 on a received Logon to synchronise the session"; the
-  monitor clauses are C07.next_expected_*): our own Logon announces the inbound number expected once it is out, 1 when it resets
-      : C07_next_expected_own; the acceptor's reply announces the number expected once the Logon answered is counted
-      : C07_next_expected_reply, and that IS the expected number after acceptance: C07_next_expected_accepted;
-        peer's 789 higher than our next outbound number ⇒ refused, nothing changed: C07_next_expected_ahead_refused,
-        C07_next_expected_refused_only_ahead, C07_next_expected_refusal_logs_out; equal / absent / unreadable / option off / tag 141
-        present ⇒ nothing: C07_next_expected_equal; lower ⇒ exactly one gap fill from the peer's 789 to the number we use next, store
-        untouched (nothing stored is lost, counters unchanged), both persistence modes: C07_next_expected_lower, end to end through
-        `handleLogon` for both roles: C07_next_expected_accepted.  With the option off the Logons carry no 789 and `handleLogon` is
-        what it was (`logonTail_off`, `nxEval_off`).  The five defects of the code before the `fix:` commits: #guards on
-        `Model/SessionNxOrig.lean`.  NOT a C07 matter but worth knowing: the gap fill replaces a replay — between two engines with
-        the option on, messages lost in flight stay lost (Props/C05.lean `cexNxHistory`, same on the real engines).
+* EnableNextExpectedMsgSeqNum (tag 789): NO sentence of the property speaks about it; the option is tied to the code by the
+  correspondence only, and the theorems are descriptive: what our own Logon carries (C07_next_expected_own: NextTarget+1 read before
+  the send), what the acceptor's reply carries (C07_next_expected_reply, = the expected number after acceptance:
+  C07_next_expected_accepted), acceptor + peer's 789 higher ⇒ refused (C07_next_expected_ahead_refused, _refused_only_ahead,
+  _refusal_logs_out), equal / absent / unreadable / option off / tag 141 ⇒ nothing (C07_next_expected_equal), different + persistence
+  ⇒ one gap fill from the peer's 789 to (number on arrival + 1), store untouched (C07_next_expected_differs), different without
+  persistence ⇒ `targetTooHigh{789, our outbound number}` (C07_next_expected_differs_nopersist, _nopersist_logon_state).  With the
+  option off the Logons carry no 789 and `handleLogon` is what it was (`logonTail_off`, `nxEval_off`).
 * the reset flag exists from FIX.4.1                               : C07_no_reset_flag_fix40 (+ `1 ≤ bs` in C07_logon_reset_sent_iff) for the
         Logon of `connect`; remark (#guard): the ResetSeqTime Logon carries 141 whatever the BeginString — the property is silent there
 * ResetOnLogout / ResetOnDisconnect return both counters to 1 exactly at logout / disconnect
